@@ -13,8 +13,11 @@ use std::path::{Path, PathBuf};
 use super::types::{Edit, Node, Tree};
 use crate::util::Bytes;
 
-/// every file's mtime is pinned to this instant before each invocation, so that any write -
-/// even of identical bytes, even a bare O_TRUNC open - is visible afterwards
+/// Every file's mtime is set to this instant when the world is materialised. Afterwards mtimes
+/// are left alone - a tool that keeps (path, mtime, size) stamps between invocations must see
+/// the mtimes it caused - and every invocation is judged against the mtimes observed just before
+/// it: any write, even of identical bytes, even a bare O_TRUNC open, moves the mtime (`settle`
+/// makes sure of that on file systems with coarse timestamps).
 pub const PIN_SEC: i64 = 1_000_000_000;
 pub const PIN_NSEC: i64 = 123_456_789;
 
@@ -107,7 +110,7 @@ pub fn apply_edit_model(tree: &mut Tree, edit: &Edit) {
     }
 }
 
-fn pin_one(p: &Path) -> io::Result<()> {
+pub fn pin_one(p: &Path) -> io::Result<()> {
     let c = CString::new(p.as_os_str().as_bytes()).unwrap();
     let ts = [
         libc::timespec { tv_sec: PIN_SEC, tv_nsec: PIN_NSEC },
@@ -167,4 +170,35 @@ pub fn snapshot_tree(s: &Snapshot) -> Tree {
 
 pub fn is_pinned(s: &Seen) -> bool {
     s.mtime == (PIN_SEC, PIN_NSEC)
+}
+
+/// true if two writes in quick succession get different mtimes on this file system
+pub fn fine_grained_mtime(dir: &Path) -> bool {
+    let p = dir.join(".mtime-probe");
+    let mut seen = std::collections::BTreeSet::new();
+    for _ in 0..4 {
+        if fs::write(&p, b"x").is_err() {
+            return false;
+        }
+        if let Ok(m) = fs::metadata(&p) {
+            seen.insert((m.mtime(), m.mtime_nsec()));
+        }
+    }
+    let _ = fs::remove_file(&p);
+    seen.len() == 4
+}
+
+/// on a file system with coarse timestamps: wait until "now" is clearly later than every mtime
+pub fn settle(snap: &Snapshot, fine: bool) {
+    if fine {
+        return;
+    }
+    let now = std::time::SystemTime::now().duration_since(std::time::UNIX_EPOCH).map(|d| d.as_nanos() as i128).unwrap_or(0);
+    let recent = snap.values().any(|s| {
+        let m = s.mtime.0 as i128 * 1_000_000_000 + s.mtime.1 as i128;
+        now - m < 20_000_000
+    });
+    if recent {
+        std::thread::sleep(std::time::Duration::from_millis(20));
+    }
 }
